@@ -1,4 +1,5 @@
 import NpsVerif.Proofs.StructA
+import NpsVerif.Props.C01
 /-!
 # Property C08 (part A) — structural functions read row by row
 
@@ -61,6 +62,21 @@ theorem C08_like (rows : List (List α)) (c : α) :
   rw [replicate_sum_lengths]
   exact rows_mk _ _ (by simp [Function.comp_def])
 
+/-- `np.empty_like(ra)`: a fresh buffer of `ra.size` cells of **whatever content** under `ra`'s geometry has exactly `ra`'s
+row lengths, and its rows are that buffer cut at those lengths (nothing is said about the content: numpy leaves it arbitrary) -/
+theorem C08_empty_like {β : Type} (rows : List (List α)) (buf : List β) (h : buf.length = (RA.ofRows rows).size) :
+    (⟨buf, (RA.ofRows rows).shape⟩ : RA β).rows.map List.length = rows.map List.length ∧
+    (⟨buf, (RA.ofRows rows).shape⟩ : RA β).rows.flatten = buf := by
+  have hs : (rows.map List.length).sum = buf.length := by
+    rw [h]; simp [RA.size, RA.ofRows, ofLens_lengths]
+  obtain ⟨a, ha, hflat, hlen, -, -⟩ := Props.C01.C01_of_flat buf (rows.map List.length) hs
+  have : a = ⟨buf, (RA.ofRows rows).shape⟩ := by
+    simp [RA.ofFlat, ofLens_size, hs] at ha
+    rw [← ha]; rfl
+  subst this
+  exact ⟨hlen, hflat⟩
+
+example : (⟨[9, 8, 7], (RA.ofRows [[1, 2], [], [3]]).shape⟩ : RA Nat).rows = [[9, 8], [], [7]] := by decide
 /-- nonzero: (row, column) coordinates of the true cells in row-major order -/
 theorem C08_nonzero (rows : List (List Bool)) :
     nonzero (RA.ofRows rows) = some ((Spec.nonzeroCoords rows).map (·.1), (Spec.nonzeroCoords rows).map (·.2)) := by
